@@ -268,6 +268,7 @@ def get_symbol(t):
 def parse_args(a):
     if a == '':
         return []
+    lexer_att.lineno = 1
     args = parser_att.parse(a, lexer = lexer_att)
     for l in args:
         if l == {}:
